@@ -16,6 +16,17 @@ def run(prop, tier):
             us += [dict(b0=p, b1=b1, L=codec.FULL, want="C02") for b1 in range(256)]
     reps = common.run_units("contracts.codec:unit", us, budget=600)
     v.absorb(reps, known)
+    proved = (v.obligations, v.discharged)
+    hunits = [dict(b0=b, samples=4 if tier == "quick" else 24, seed=common.seed(), kind="hooks-after-history", replayer="contracts.codec:replay_hooks_history") for b in range(256)]
+    hreps = common.run_units("contracts.codec:unit_hooks_history", hunits, budget=300)
+    v.absorb(hreps, known)
+    nb = (v.obligations - proved[0], v.discharged - proved[1])
+    v.obligations, v.discharged = proved
+    v.extra["bounded_obligations"] = dict(generated=nb[0], discharged=nb[1], note="concrete callback histories: bounded, not counted in obligations/discharged")
+    v.bounded = [dict(part="architecture callbacks after a history sharing a byte prefix (contracts.codec:unit_hooks_history)",
+                      bound=f"256 first bytes x {hunits[0]['samples']} concrete byte strings x every shared-prefix length 1..length: the callbacks' answer for s after they were asked about s' "
+                            "(same first k bytes) equals what the plain decoder says about s alone (length, text, IL, round-trip guard)",
+                      note="bounded companion for caches keyed on part of the bytes: a symbolic byte string cannot follow a hash lookup (such a change makes the symbolic units undecided, never 'held')")]
     v.assumptions = [
         "every operand byte, including every don't-care bit (high nibble of 20-bit immediates, bit 3 / bits 4-7 of register selectors, spare register-pair bits), is a free symbol",
         "re-decoded text compared as templates whose placeholders are proved equal; re-decoded IL compared structurally with proved-equal leaves",
